@@ -82,6 +82,7 @@ def make_segy(path, data, ilines=None, xlines=None, dt_us=4000, t0=0, fmt=1, hea
             f.header[t] = h
             f.trace[t] = data[i, x]
             t += 1
+    vendor_bytes(path)
     return path
 
 
@@ -104,7 +105,17 @@ def make_segy_traces(path, traces, headers, dt_us=4000, t0=0, fmt=1, ext=0):
             h.update({int(k): int(v) for k, v in headers[t].items()})
             f.header[t] = h
             f.trace[t] = traces[t]
+    vendor_bytes(path)
     return path
+
+
+def vendor_bytes(path):
+    """Non-zero content in the parts of the binary file header no SEG-Y revision assigns (a vendor tag): a copy that goes
+    through named fields only loses it."""
+    with open(path, 'r+b') as f:
+        for lo, hi in ((3300, 3500), (3520, 3600)):
+            f.seek(lo)
+            f.write(bytes(1 + (7 * i + lo) % 250 for i in range(hi - lo)))
 
 
 def field_range(k):
